@@ -2,7 +2,8 @@
    no case folding: the way gitignore applies wildmatch to one path component).
    A pattern of the fragment
        literal | \c | ? | * | ** | [set] | [!set] | [^set]
-       set ::= (c | c-d)+        c, d not one of  NUL \ ] [ -
+       set ::= element+ ;  element ::= c | \c | lo-hi | lo-\hi
+       (everything wildmatch accepts in brackets except POSIX classes "[:name:]")
    denotes a list of items; [Gmatch] says which byte strings a list of items
    matches.  No repository content here. *)
 From Coq Require Import List NArith Bool.
@@ -47,41 +48,45 @@ Fixpoint gmatch (g : list item) (t : bytes) : bool :=
 
 (* ---------------- concrete syntax of the fragment ---------------- *)
 
-Definition ordinary (c : N) : bool :=
-  negb ((c =? 0) || (c =? 92) || (c =? 93) || (c =? 91) || (c =? 45)).
+Definition is_some {A} (o : option A) : bool := match o with Some _ => true | None => false end.
 
-(* the elements of a set up to and including the closing bracket *)
-Fixpoint parse_elems (s : bytes) : option (list (N * N) * bytes) :=
-  match s with
-  | c :: r =>
-    if ordinary c then
-      match r with
-      | d :: r1 =>
-        if d =? 93 then Some ([(c, c)], r1)
-        else if d =? 45 then
-          match r1 with
-          | e :: r2 =>
-            if ordinary e then
-              match r2 with
-              | x :: r3 =>
-                if x =? 93 then Some ([(c, c); (c, e)], r3)
-                else match parse_elems r2 with
-                     | Some (rs, rest) => Some ((c, c) :: (c, e) :: rs, rest)
-                     | None => None
-                     end
-              | [] => None
-              end
-            else None
-          | [] => None
-          end
-        else match parse_elems r with
-             | Some (rs, rest) => Some ((c, c) :: rs, rest)
+(* the elements of a set up to and including the closing bracket.
+     element ::= c | \c | lo-hi | lo-\hi
+   [prev] is the byte of the preceding single-byte element (a range can start
+   from it); a dash is literal when nothing precedes it, when it follows a
+   range, or when it is last; the first element may be a closing bracket or an
+   opening one; "[:" (a POSIX class) is outside the fragment *)
+Fixpoint parse_elems (fuel : nat) (prev : option N) (s : bytes) : option (list (N * N) * bytes) :=
+  match fuel with O => None | S f =>
+  let cont (prev' : option N) (rs : list (N * N)) (rest : bytes) :=
+      match rest with
+      | [] => None
+      | x :: after =>
+        if x =? 93 then Some (rs, after)
+        else match parse_elems f prev' rest with
+             | Some (rs', rest') => Some (rs ++ rs', rest')
              | None => None
              end
+      end in
+  match s with
+  | [] => None
+  | c :: r =>
+    if c =? 0 then None
+    else if c =? 92 then
+      match r with
+      | e :: r' => if e =? 0 then None else cont (Some e) [(e, e)] r'
       | [] => None
       end
-    else None
-  | [] => None
+    else if (c =? 45) && is_some prev && match r with h :: _ => negb (h =? 93) | [] => false end then
+      match prev, r with
+      | Some lo, h :: r1 =>
+        if h =? 92 then match r1 with e2 :: r2 => cont None [(lo, e2)] r2 | [] => None end
+        else cont None [(lo, h)] r1
+      | _, _ => None
+      end
+    else if (c =? 91) && match r with h :: _ => h =? 58 | [] => false end then None
+    else cont (Some c) [(c, c)] r
+  end
   end.
 
 (* after the opening bracket *)
@@ -89,9 +94,9 @@ Definition parse_set (s : bytes) : option (item * bytes) :=
   match s with
   | c :: r =>
     if (c =? 33) || (c =? 94) then
-      match parse_elems r with Some (rs, rest) => Some (ISet true rs, rest) | None => None end
+      match parse_elems (S (List.length r)) None r with Some (rs, rest) => Some (ISet true rs, rest) | None => None end
     else
-      match parse_elems s with Some (rs, rest) => Some (ISet false rs, rest) | None => None end
+      match parse_elems (S (List.length s)) None s with Some (rs, rest) => Some (ISet false rs, rest) | None => None end
   | [] => None
   end.
 
